@@ -3,6 +3,7 @@
 //
 //   rd <KIND> <opt 0|1> <strict 0|1> <hex token bytes> <hex context bytes (delimiter context + rest)>
 //        -> R sev=<NAME> val=<V> pos=<n> eof=<b> fail=<b> w=<hex of STEPwrite> s=<hex of asStr>
+//   ag <KIND> <hex bytes>      read the bytes as a required LIST OF <KIND> attribute: severity, element values, stream
 //   wr <KIND> <value>          value: INTEGER decimal | REAL/NUMBER 16-hex-digit IEEE bits | STRING/BINARY hex content
 //                                     | BOOLEAN/LOGICAL/ENUM element name | REF file id
 //        -> W w=<hex of STEPwrite> s=<hex of asStr> | R ... (the written token followed by ',' read back by STEPread)
@@ -79,7 +80,7 @@ static const char * SUFF[]  = { "int", "real", "num", "str", "bin", "bool", "log
 
 static STEPattribute * attrOf( const std::string & kind, int opt ) {
     for( int i = 0; i < 9; i++ ) if( kind == KINDS[i] ) {
-            std::string nm = std::string( opt ? "o_" : "e_" ) + SUFF[i];
+            std::string nm = std::string( opt == 2 ? "a_" : opt ? "o_" : "e_" ) + SUFF[i];
             std::map<std::string, SDAI_Application_instance *>::iterator it = inst.find( nm );
             if( it == inst.end() ) return 0;
             return &( it->second->attributes[0] );
@@ -112,6 +113,45 @@ static std::string valueOf( STEPattribute * a ) {
     }
 }
 
+// the elements of an aggregate attribute (LIST OF <kind>), `;`-separated, in the value notation of valueOf()
+static std::string elemsOf( STEPattribute * a, int kindIdx ) {
+    STEPaggregate * ag = a->ptr.a;
+    if( !ag || ag->is_null() ) return "null";
+    std::string out = "[";
+    bool first = true;
+    for( SingleLinkNode * n = ag->GetHead(); n; n = n->NextNode() ) {
+        char b[64];
+        std::string v;
+        switch( kindIdx ) {
+            case 0: { long x = ( ( IntNode * )n )->value; if( x == S_INT_NULL ) v = "unset"; else { sprintf( b, "i:%ld", x ); v = b; } break; }
+            case 1:
+            case 2: { double x = ( ( RealNode * )n )->value; if( x == S_REAL_NULL ) v = "unset"; else v = "r:" + bitsOf( x ); break; }
+            case 3: { SDAI_String & x = ( ( StringNode * )n )->value; if( x.empty() ) v = "unset"; else v = "s:" + hex( x.c_str() ); break; }
+            case 4: { SDAI_Binary & x = ( ( BinaryNode * )n )->value; if( x.empty() ) v = "unset"; else v = "b:" + hex( x.c_str() ); break; }
+            case 5:
+            case 6:
+            case 7: { SDAI_Enum * x = ( ( EnumNode * )n )->node; if( !x || x->is_null() ) v = "unset"; else { std::string t; x->asStr( t ); v = "e:" + t; } break; }
+            case 8: { SDAI_Application_instance * x = ( ( EntityNode * )n )->node; if( !x || x == S_ENTITY_NULL ) v = "unset"; else { sprintf( b, "#%d", x->StepFileId() ); v = b; } break; }
+            default: v = "?";
+        }
+        if( !first ) out += ";";
+        first = false;
+        out += v;
+    }
+    return out + "]";
+}
+
+static std::string doReadAggr( STEPattribute * a, int kindIdx, const std::string & bytes ) {
+    std::istringstream in( bytes );
+    Severity sv = a->STEPread( in, mgr, 0, 0, true );
+    bool e = in.eof(), f = in.fail();
+    in.clear();
+    long pos = ( long )in.tellg();
+    std::ostringstream o;
+    o << "A sev=" << sevName( sv ) << " val=" << elemsOf( a, kindIdx ) << " pos=" << pos << " eof=" << e << " fail=" << f;
+    return o.str();
+}
+
 static std::string doRead( STEPattribute * a, const std::string & bytes, bool strict ) {
     std::istringstream in( bytes );
     Severity sv = a->STEPread( in, mgr, 0, 0, strict );
@@ -130,8 +170,8 @@ static std::string doRead( STEPattribute * a, const std::string & bytes, bool st
 int main() {
     reg = new Registry( SchemaInit );
     mgr = new InstMgr();
-    for( int i = 0; i < 9; i++ ) for( int o = 0; o < 2; o++ ) {
-            std::string nm = std::string( o ? "o_" : "e_" ) + SUFF[i];
+    for( int i = 0; i < 9; i++ ) for( int o = 0; o < 3; o++ ) {
+            std::string nm = std::string( o == 2 ? "a_" : o ? "o_" : "e_" ) + SUFF[i];
             std::string up = nm;
             up[0] = toupper( up[0] );
             SDAI_Application_instance * s = reg->ObjCreate( up.c_str() );
@@ -164,6 +204,15 @@ int main() {
             STEPattribute * a = attrOf( kind, opt );
             if( !a || h2.empty() || !unhex( h, bytes ) || !unhex( h2, ctx ) ) { std::cout << "bad-op\n"; continue; }
             std::cout << doRead( a, bytes + ctx, strict != 0 ) << "\n";
+        } else if( cmd == "ag" ) {
+            // ag <KIND> <hex bytes>: STEPattribute::STEPread of a required LIST OF <KIND> attribute on the bytes
+            std::string kind, h, bytes;
+            ls >> kind >> h;
+            int ki = -1;
+            for( int i = 0; i < 9; i++ ) if( kind == KINDS[i] ) ki = i;
+            STEPattribute * a = attrOf( kind, 2 );
+            if( !a || ki < 0 || !unhex( h, bytes ) ) { std::cout << "bad-op\n"; continue; }
+            std::cout << doReadAggr( a, ki, bytes ) << "\n";
         } else if( cmd == "wr" ) {
             std::string kind, v;
             ls >> kind >> v;
